@@ -43,7 +43,10 @@ def run_entry_points(ctx: Ctx, rs: RuleSet, rule: str, entries: List[str],
            '__dir__', '__getstate__', '__iter__', '__flatten__',
            '__path_elements__', 'get')):
         continue
-      facts = [fct for (o, lvl), fct in s.mut.items() if o == i]
+      facts = []
+      for (o, lvl), fct in s.mut.items():
+        if o == i:
+          facts += s.all.get((o, lvl)) or [fct]
       key = f'{e}:{name}'
       live = []
       for fct in facts:
